@@ -254,7 +254,7 @@ func c06Retry(c *Ctx) *RuleResult {
 }
 
 func c06Rearm(c *Ctx) *RuleResult {
-	r := &RuleResult{Rule: "C06.rearm", Floor: 3,
+	r := &RuleResult{Rule: "C06.rearm", Floor: 2,
 		Doc: "in Synchronize, once the worker's cleanup entry has been cancelled, a worker has been created, or a removable size-class queue has been created or had its removal cancelled, EVERY exit re-arms the worker cleanup (the deferred cleanupQueue.add(&w.cleanupKey, ...)); the only tolerated early exit after creating a queue or cancelling its removal is the one taken when the worker already exists (a new queue, or one with a pending removal, has no workers; its arming is guarded by len(workers) == 0, rule C06.cfg)"}
 	p := c.P
 	rem := p.LookupFunc(schedPkg, "cleanupQueue.remove")
@@ -354,6 +354,26 @@ func c06Rearm(c *Ctx) *RuleResult {
 					}
 				}
 			}
+			// queue events (removal cancelled / removable queue created): tolerated like in Synchronize
+			tolerant := false
+			if len(evs) == 0 {
+				for _, cs := range CallsTo([]*FuncUnit{hu}, rem) {
+					if fieldOf(hinfo, cs.Node.(*ast.CallExpr).Args[0]) == qKey {
+						evs = append(evs, cs.Node)
+						what = "cancel queue removal"
+						tolerant = true
+					}
+				}
+				for _, cs := range CallsTo([]*FuncUnit{hu}, addSCQ) {
+					evs = append(evs, cs.Node)
+					if what == "" {
+						what = "create removable size-class queue"
+					} else {
+						what += " / create removable size-class queue"
+					}
+					tolerant = true
+				}
+			}
 			if len(evs) == 0 {
 				return true
 			}
@@ -386,7 +406,7 @@ func c06Rearm(c *Ctx) *RuleResult {
 				return true
 			})
 			existingOnlyErr[hc] = onlyExisting
-			origins = append(origins, origin{hc, what + " (in " + h.Name() + ")", false})
+			origins = append(origins, origin{hc, what + " (in " + h.Name() + ")", tolerant})
 			return true
 		})
 		// a return under `err != nil` where err is the result of such a helper call
@@ -409,18 +429,20 @@ func c06Rearm(c *Ctx) *RuleResult {
 		for _, o := range origins {
 			construct := constructOf(u, o.what)
 			barrier := isRearm
-			if hc, isHelper := o.n.(*ast.CallExpr); isHelper && helperErrOK[hc] {
+			hcOrigin, isHelperOrigin := o.n.(*ast.CallExpr)
+			if isHelperOrigin && helperErrOK[hcOrigin] {
 				barrier = func(n ast.Node) bool {
 					if isRearm(n) {
 						return true
 					}
 					ret, ok := n.(*ast.ReturnStmt)
-					return ok && errReturnOf(ret, map[ast.Node]bool{hc: true})
+					return ok && errReturnOf(ret, map[ast.Node]bool{hcOrigin: true})
 				}
 			}
 			if o.tolerateExisting {
+				inner := barrier
 				barrier = func(n ast.Node) bool {
-					if isRearm(n) {
+					if isRearm(n) || inner(n) {
 						return true
 					}
 					// a return taken when the worker already exists
